@@ -306,7 +306,15 @@ pub fn process<I: BufRead, O: Write>(
         None => (None, None),
     };
 
-    while input.read_line(&mut buf)? > 0 {
+    // A file that can't be read (a directory, invalid UTF-8) is an error located in that file
+    let unreadable = |e: std::io::Error, line: u32| Error::Syntax {
+        filename: filename.clone(),
+        included_in: included_in.clone(),
+        line,
+        msg: format!("Can't read the source: {e}"),
+    };
+
+    while input.read_line(&mut buf).map_err(|e| unreadable(e, line + 1))? > 0 {
         line += 1;
 
         // Process splices by removing them...
@@ -318,7 +326,7 @@ pub fn process<I: BufRead, O: Write>(
                 buf.pop();
                 buf.pop();
                 let mut buf2 = String::new();
-                if input.read_line(&mut buf2)? > 0 {
+                if input.read_line(&mut buf2).map_err(|e| unreadable(e, line + 1))? > 0 {
                     buf.push_str(&buf2);
                     line += 1;
                 } else {
@@ -693,7 +701,12 @@ pub fn process<I: BufRead, O: Write>(
                                         msg: "#include nested too deeply".to_string(),
                                     });
                                 }
-                                let f = File::open(path)?;
+                                let f = File::open(path).map_err(|e| Error::Syntax {
+                                    filename: filename.clone(),
+                                    included_in: included_in.clone(),
+                                    line,
+                                    msg: format!("Included file {fname} can't be opened: {e}"),
+                                })?;
                                 let assembler = fname.ends_with(".inc")
                                     || fname.ends_with(".a")
                                     || fname.ends_with(".asm");
